@@ -668,6 +668,21 @@ func replay(c *lib.Chain, rep *lib.Report) {
 		Replay json.RawMessage `json:"replay"`
 	}
 	lib.Must(json.Unmarshal(b, &doc))
+	var lc struct {
+		Lifecycle bool  `json:"lifecycle"`
+		Seed      int64 `json:"seed"`
+	}
+	if len(doc.Replay) > 0 && json.Unmarshal(doc.Replay, &lc) == nil && lc.Lifecycle {
+		lifecycleHistory(lc.Seed, rep)
+		for _, f := range rep.Failures {
+			fmt.Println("FAILURE:", f.Sig, "—", f.What)
+		}
+		if len(rep.Failures) == 0 {
+			fmt.Println("no monitor failure on replay")
+		}
+		rep.Write()
+		return
+	}
 	var h History
 	if len(doc.Replay) > 0 {
 		lib.Must(json.Unmarshal(doc.Replay, &h))
